@@ -409,7 +409,6 @@ class Fun(object):
         self.fn, self.module, self.cursor, self.conv_in = fn, module, cursor, conv_in
         self.sigs, self.globals_ok, self.module_names = sigs, globals_ok, module_names
         self.sig = Sig(fn, fn.name)
-        need(fn.returns is None or True, '')           # annotations are neutral
         for n in ast.walk(fn):
             need(not isinstance(n, (ast.FunctionDef, ast.AsyncFunctionDef, ast.Lambda, ast.ClassDef,
                                     ast.YieldFrom, ast.Await, ast.Try, ast.With, ast.Import,
@@ -707,9 +706,6 @@ class Fun(object):
     def translate(self):
         body = strip_doc(self.fn.body)
         need(body, '%s: empty body' % self.fn.name)
-        for n in ast.walk(self.fn):
-            if isinstance(n, ast.Yield):
-                pass
         # yield only as a statement
         ys = [n for n in ast.walk(self.fn) if isinstance(n, ast.Yield)]
         stm = [n for n in ast.walk(self.fn) if isinstance(n, ast.Expr) and isinstance(n.value, ast.Yield)]
